@@ -61,6 +61,60 @@ def nonnormalised_matches_dataset(rng, i):
     return d
 
 
+def shared_points_dataset(rng, i):
+    """Observations in which 3-D points are seen through SEVERAL kinds of keypoints (observations.txt then has several
+    lines with the same point3d_id, one per keypoints type), the same image / the same (image, feature) under two kinds,
+    points seen through one kind only next to them, and every order of insertion (kind-major, point-major, interleaved:
+    the in-memory dict order of the kinds of a point is not the sorted order the writer uses)."""
+    extra = {p for p in ('descriptors', 'matches', 'trajectories', 'global_features') if rng.random() < 0.3}
+    d = cc.gen_dataset(rng, present={'sensors', 'records_camera', 'keypoints', 'points3d', 'observations'} | extra, size=3)
+    cam = next((s_[0] for s_ in d['sensors'] if s_[2] == 'camera'), None)
+    if cam is None:
+        d['sensors'].append(['cam', None, 'camera', ['UNKNOWN_CAMERA', '640', '480']])
+        cam = 'cam'
+    imgs = sorted({r[2] for r in d['records_camera']})
+    for j in range(len(imgs), 3):
+        d['records_camera'].append([10 ** 6 + j, cam, 'shared/%d.jpg' % j])
+    imgs = sorted({r[2] for r in d['records_camera']})
+    # 2-4 kinds of keypoints, names whose sorted order differs from their creation order
+    kinds = [r[0] for r in d['keypoints']]
+    for name in ['sift', 'r2d2', 'SuperPoint', 'd2_tf']:
+        if len(kinds) >= 2 + i % 3:
+            break
+        if name.lower() not in {k.lower() for k in kinds}:
+            d['keypoints'].append([name, 'ext', rng.choice(cc.DTYPES_WRITE), rng.randint(0, 128), []])
+            kinds.append(name)
+    for row in d['keypoints']:
+        row[-1] = sorted(set(row[-1]) | set(rng.sample(imgs, rng.randint(2, len(imgs)))))
+    kimgs = {r[0]: r[-1] for r in d['keypoints']}
+    npts = rng.randint(2, 5)
+    pids = rng.sample(range(0, 12), npts) if i % 4 else [cc.gen_timestamp(rng) for _ in range(npts)]
+    pids = list(dict.fromkeys(pids))
+    keys = []
+    for n, pid in enumerate(pids):
+        seen_by = kinds if n == 0 else rng.sample(kinds, rng.randint(1, len(kinds)))   # the first point: every kind
+        keys += [(pid, kt) for kt in seen_by]
+    order = ['kind-major', 'point-major', 'shuffled', 'reverse'][i % 4]
+    if order == 'kind-major':
+        keys.sort(key=lambda k: kinds.index(k[1]))
+    elif order == 'shuffled':
+        rng.shuffle(keys)
+    elif order == 'reverse':
+        keys.reverse()
+    rows = []
+    for pid, kt in keys:
+        pairs = [[rng.choice(kimgs[kt]), rng.randint(0, 30)] for _ in range(rng.randint(1, 3))]
+        prev = next((r for r in rows if r[0] == pid), None)
+        if prev is not None and rng.random() < 0.5:
+            # the very same image (and sometimes feature index) under another kind of keypoints
+            same = [p_ for p_ in prev[2] if p_[0] in kimgs[kt]]
+            if same:
+                pairs.append(list(rng.choice(same)))
+        rows.append([pid, kt, pairs])
+    d['observations'] = rows
+    return d
+
+
 def _has_nonnormalised_pairs(d):
     return any(not cc.is_normalised(x) for kt, pairs in (d.get('matches') or []) for pr in pairs for x in pr)
 
@@ -131,6 +185,9 @@ def gen_cases(rng, tier):
     # KNOWN FINDING: match pairs on image paths that are not in normpath form (lost on reload by the code as it is)
     for i in range(3 if tier == 'quick' else 12):
         mk(nonnormalised_matches_dataset(rng, i))
+    # 3-D points seen through several kinds of keypoints: several lines of observations.txt share a point3d_id
+    for i in range(4 if tier == 'quick' else 24):
+        mk(shared_points_dataset(rng, i))
     # large tables (a writer that works in blocks must not depend on the number of rows)
     for nrows in ((1001,) if tier == 'quick' else (999, 1000, 1001, 2001)):
         d = cc.gen_dataset(rng, present={'sensors'}, size=0)
